@@ -561,6 +561,43 @@ def gen(tier):
     for ci in INDENTS:
       for mll in WIDTHS(ci):
         yield ['dyn', name, mll, ci]
+  for scope in DOTTED_SCOPES:
+    for how in ('bind', 'reference_then_bind'):
+      yield ['dotted', scope, how]
+
+
+# ----------------------------------------------------------------------------------------- dotted scope names
+# config_scope() and bind_parameter() accept scope components with periods (the parser does in references and macros:
+# `@a.b/fn()`, `%a.b/m`), so such configurations are reachable by programmatic binding.
+DOTTED_SCOPES = ['a.b', 'p/a.b', 'a.b/q', 'c06.f']
+
+
+def run_dotted(case, res):
+  _, scope, how = case
+  harness.hard_reset()
+  if how == 'bind':
+    gin.bind_parameter('%s/c06.f.x' % scope, 7)
+  else:
+    gin.parse_config('c06.g.t = @%s/c06.f\n' % scope)       # a reference may spell the scope; bind under it afterwards
+    gin.bind_parameter((scope, 'c06.f', 'x'), 7)
+  gin.bind_parameter('c06.f.y', 'root')
+  res.case(('dotted', scope, how), True)
+  s = gin.config_str()
+  harness.hard_reset()
+  try:
+    gin.parse_config(s)
+  except Exception as e:  # pylint: disable=broad-except
+    res.violation('dotted_scope_text_unparseable', "binding under the scope %r (%s): config_str() does not parse (%r):\n%s" %
+                  (scope, how, e, s), case)
+    return
+  try:
+    ok = gin.query_parameter('%s/c06.f.x' % scope) == 7 and gin.query_parameter('c06.f.y') == 'root'
+  except ValueError:
+    ok = False
+  if not ok:
+    res.violation('binding_not_restored', 'dotted scope %r: bindings not restored from\n%s' % (scope, s), case)
+  else:
+    res.w('dotted_scope_roundtrip')
 
 
 NSH = 128
@@ -580,6 +617,8 @@ def run_shard(i, tier):
         run_config(c[1], tier, res)
       elif c[0] == 'late':
         run_late(c, res)
+      elif c[0] == 'dotted':
+        run_dotted(c, res)
       else:
         run_dyn(c, res)
     except Exception:  # pylint: disable=broad-except
@@ -598,6 +637,8 @@ def replay(desc):
     run_dyn(desc, res)
   elif desc[0] == 'late':
     run_late(desc, res)
+  elif desc[0] == 'dotted':
+    run_dotted(desc, res)
   else:
     run_config(desc[1], 'thorough', res)
   harness.hard_reset()
